@@ -199,6 +199,14 @@ def cases(ctx):
 def run_omit(ctx, case):
     sp = G.easy_spec(np.random.default_rng(case['specseed']), rank=int(case['rank']), L=64)
     s = G.build(sp, omit=set(case['omit']))
+    missing_d = [x.split(':')[1] for x in case['omit'] if x.startswith('d:')]
+    if missing_d and len(case['omit']) % 2 == 1:
+        # the diameter is missing but every contact distance involving that type was written into the sigma table by hand: a
+        # diameter is still missing (the site volume, chi, the closure's core all need it)
+        for t in missing_d:
+            for u in sp['types']:
+                s.diameter.sigma[t, u] = 1.0
+        ctx.hook('omission.diameter_missing_but_sigma_written')
     ctx.hook('omission.case')
     i0, c0 = _S['init'], _S['cost']
     before = digest(s)
